@@ -63,6 +63,12 @@ func (e *eng) disasm() {
 	var sunk []absint.Val
 	var renderer *ssa.Function
 	in := absint.NewInterp(p.SSA, &absint.Oracle{})
+	// lookup tables of the package have their contents
+	pkgGlobals, gerr := absint.InitGlobals(p.SSA, strFn.Pkg)
+	if gerr == nil {
+		in.Globals = pkgGlobals
+		e.globals = pkgGlobals
+	}
 	in.Hooks.Call = func(in *absint.Interp, callee *ssa.Function, args []absint.Val, site ssa.Instruction) (absint.Val, bool) {
 		if callee == conv {
 			return &absint.Sym{Op: "decoded", Args: []absint.Val{args[0]}, T: intT}, true
@@ -74,6 +80,18 @@ func (e *eng) disasm() {
 				sunk = append(sunk, a)
 			}
 			return nil, false
+		}
+		// the opcode handed to a function of the package (its String method, a
+		// name table) is the opcode being rendered
+		if callee != conv && !isRenderer(callee) && len(args) >= 1 && e.opField != nil {
+			if fs, ok := fields(args[0]); ok && len(fs) == 1 && fs[0].src == "INSTR" && fs[0].rshift == e.opField.lshift && fs[0].mask == e.opField.mask {
+				if callee.Signature.Results().Len() == 1 {
+					if bt, isB := callee.Signature.Results().At(0).Type().Underlying().(*types.Basic); isB && bt.Kind() == types.String {
+						sunk = append(sunk, args[0])
+						return &absint.Sym{Op: "var", Name: "OPCODENAME", T: types.Typ[types.String]}, true
+					}
+				}
+			}
 		}
 		if isRenderer(callee) {
 			renderer = callee
@@ -216,7 +234,7 @@ func (e *eng) disasm() {
 	for used[unused] {
 		unused++
 	}
-	globals, gend := absint.InitGlobals(p.SSA, nameFn.Pkg)
+	globals, gend := pkgGlobals, gerr
 	if gend != nil {
 		s.Unk("E8", "bytecode.OpCode.String / package initialiser", npos, gend.Error())
 		return
@@ -269,6 +287,9 @@ func (e *eng) evalM(fn *ssa.Function, args []absint.Val) (outs []struct {
 	o := &absint.Oracle{}
 	for n := 0; n < 50; n++ {
 		in := absint.NewInterp(e.p.SSA, o)
+		if e.globals != nil {
+			in.Globals = e.globals
+		}
 		res, end := in.Run(fn, args)
 		outs = append(outs, struct {
 			res absint.Val
